@@ -110,11 +110,17 @@ def run_shard(spec, rec):
     if spec["kind"] == "random":
         for _ in range(spec["n"]):
             cfg = G.Cfg(filters=R.random() < 0.5, regex_functions=False, max_depth=2, max_segments=4)
-            cfg.indices = [0, 1, -1, -2, 2, -3]
+            cfg.indices = [0, 1, -1, -2, 2, -3, -4, -5, -7]
             gen = G.QGen(R, cfg)
             q = gen.query(root="$")
             doc = D.doc_for(R, q, maxdepth=R.choice([3, 4, 5]), maxwidth=4)
             text = G.render(q, R, feat=rec.features)
+            if R.random() < 0.03:
+                # long arrays: indices with several digits (100, 1005, ...) in locations and normalized paths
+                n_ = R.choice([101, 130, 1100])
+                doc = {"rows": [[i] for i in range(n_)], "a": [1]}
+                text = R.choice(["$.rows[%d:%d]" % (n_ - 12, n_), "$.rows[::97]", "$.rows[-1,-2,100,105]", "$..[100]", "$.rows[?@[0] > %d]" % (n_ - 5), "$.rows[-%d]" % n_])
+                rec.feat("case:long-array")
             rec.wal({"query": text})
             try:
                 with guard(60):
@@ -123,6 +129,16 @@ def run_shard(spec, rec):
                         rec.feat("query-failed:" + type(o[1]).__name__)
                         continue
                     n, nt, v = check_nodes(jp, rec, text, doc, o[1], requery=True, max_nodes=40)
+                    if v is None:
+                        # find_one must return the first of those nodes (same location, same value object) or None
+                        o1 = mon.observe(jp.find_one, text, doc)
+                        rec.monitor("M-node")
+                        if o1[0] != "ok":
+                            v = ("find_one-raises", {"observed": mon.describe_outcome(o1)})
+                        elif (o1[1] is None) != (len(o[1]) == 0):
+                            v = ("find_one-node-differs", {"find_one": None if o1[1] is None else jsonable(list(o1[1].location)), "find": len(o[1])})
+                        elif o1[1] is not None and (tuple(o1[1].location) != tuple(o[1][0].location) or o1[1].value is not o[1][0].value):
+                            v = ("find_one-node-differs", {"find_one": jsonable(list(o1[1].location)), "find_first": jsonable(list(o[1][0].location))})
             except CaseTimeout:
                 rec.timeout(text)
                 continue
